@@ -143,3 +143,7 @@ Definition tagged_add (p : list N) (add : Z) (force : bool) : N * list N :=
     let newenc := tagged_len nv in
     if (orig <? newenc) && negb force then (newenc, p)
     else (newenc, store p 0 (tagged_put64 nv)).
+
+(* EXTRACT: tagged_put64 tagged_put64_fixed tagged_put64_fixed_quick tagged_len
+   tagged_len_quick tagged_getlen tagged_get tagged_get64 tagged_get64_return_value
+   tagged_get32 tagged_put32 tagged_get64_quick tagged_add *)
